@@ -186,7 +186,7 @@ class TlcResult:
 _tlc_seq = [0]
 
 
-def tlc(ctx, tla, cfg, workers=8, timeout=900, env=None, simulate=None, depth=None, xmx="6g",
+def tlc(ctx, tla, cfg, workers=8, timeout=900, env=None, simulate=None, depth=None, xmx="4g",
         xss=None, deque=False, extra=(), seed=None, cwd=None):
     """Run TLC on SPEC/<tla> with config SPEC/<cfg>.  Returns TlcResult (rc is not checked)."""
     _tlc_seq[0] += 1
